@@ -188,6 +188,10 @@ impl ExecutorInner {
 
         // Return the panic payload, if any.
         if let Err(payload) = result {
+            // In case this executor is nested in another one, hand its counter
+            // of in-flight messages back to the enclosing executor.
+            channel::THREAD_MSG_COUNT.set(msg_count_stash);
+
             let model_id = CURRENT_MODEL_ID.take();
 
             return Err(ExecutorError::Panic(model_id, payload));
